@@ -50,6 +50,8 @@ class VInterp(sym.Interp):
 
     # ---- values ---------------------------------------------------------------------------------
     def deref(self, v):
+        if isinstance(v, sym.PlaceRef):
+            return self.deref(self.ev(self.place_of_ref(v, v.node)))
         return v.get() if isinstance(v, ElemRef) else v
 
     def ev_Local(self, n):
@@ -197,6 +199,8 @@ class VInterp(sym.Interp):
             if isinstance(tgt, ElemRef):
                 tgt.set(val)
                 return
+            if isinstance(tgt, sym.PlaceRef):
+                return self.assign(self.place_of_ref(tgt, node), val, node)
             return self.assign(l["e"], val, node)
         if l.get("k") == "Local":
             cur = self.env.get(l["id"])
@@ -795,10 +799,19 @@ class VInterp(sym.Interp):
         fn = n["args"][k]
         if fn.get("k") == "Closure":
             return sym.ClosureVal(fn, None)
+        fp = peel(fn)
+        if fp.get("k") == "Path" and (fp.get("dk", "").startswith(("Fn", "AssocFn", "Ctor"))):
+            return sym.FnVal(fp)
         v = self.ev(fn)
-        if isinstance(v, sym.ClosureVal):
+        if isinstance(v, (sym.ClosureVal, sym.FnVal)):
             return v
         raise sym.Unsupported(n, "callable argument %s" % pp(fn)[:40])
+
+    def apply_fn(self, fv, args, n):
+        d = fv.node.get("def") or ""
+        if d in self.F.by_path and len(self.F.by_path[d]) == 1 and not fv.node.get("dk", "").startswith("Ctor"):
+            return self.inline_fn(self.F.by_path[d][0], [self.deref(a) for a in args], n)
+        return sym.Interp.apply_fn(self, fv, [self.deref(a) for a in args], n)
 
     def iter_method(self, n, name, it):
         items = it.items
@@ -838,16 +851,16 @@ class VInterp(sym.Interp):
                 return LazyIter([self.apply_closure(v_, [x], n) for x in items])
             raise sym.Unsupported(n, "map with %s" % pp(fn)[:40])
         if name == "filter":
-            fn = n["args"][0]
+            cvf = self._closure_arg(n)
             out = []
             for x in items:
-                if self.decide(self.apply_closure(sym.ClosureVal(fn, None), [x], n), n):
+                if self.decide(self.apply_closure(cvf, [x], n), n):
                     out.append(x)
             return LazyIter(out)
         if name in ("any", "all"):
-            fn = n["args"][0]
+            cvf = self._closure_arg(n)
             for x in items:
-                r = self.decide(self.apply_closure(sym.ClosureVal(fn, None), [x], n), n)
+                r = self.decide(self.apply_closure(cvf, [x], n), n)
                 if name == "any" and r:
                     return sp.true
                 if name == "all" and not r:
